@@ -33,6 +33,9 @@ VALUES = [b"", b"a", b"b", b"0", b"5", b"-3", b"99", b"100", b"007", b"+5", b"12
 MEMBERS = [b"a", b"b", b"c", b"d", b"", b"\x00\xffm", b"ab", b"a/b"]
 PATTERNS = [b"*", b"a*", b"?", b"[a-c]", b"*b", b"x", b"", b"a/*", b"[^a]*", b"\\*"]
 INT_EDGES = [0, 1, -1, 2, -2, 3, 5, -5, 7, 100, -100, 2**31, 2**63 - 1, -2**63]
+# GeoAdd(key, members...): in range, on the limits, outside (stored with score 0), equal points
+GEO_LONS = [13.361389, 15.087269, 0.0, -0.0, 0.0001, -122.4194, 179.99999, -180.0, 180.0, 200.0, -200.0, 2.5]
+GEO_LATS = [38.115556, 37.502669, 0.0, 0.0001, -0.0001, 85.05112878, -85.05112878, 85.05112877, 90.0, -90.0, 60.0]
 SCORES_ARITH = [0, 1, -1, 2, 3, -2, 5, 10, 100]
 SCORES_ANY = [0.0, -0.0, 1.0, -1.0, 1.5, 2.5, 3.0, 2.0, 1e100, -1e100, 5e-324, 0.1, 0.2, 0.30000000000000004, 1e-3, 123456.789, 1e21]
 # float text (work package C): increments / stored texts with fractions, exponents, 17-digit values, sums that need
@@ -312,6 +315,8 @@ class G:
             lambda: f"ZAddXX {k} {m()} {self.score()}",
             lambda: f"ZAddLT {k} {m()} {self.score()}",
             lambda: f"ZAddGT {k} {m()} {self.score()}",
+            lambda: "GeoAdd " + k + "".join(" " + m() + ":" + fbits(c(GEO_LONS)) + ":" + fbits(c(GEO_LATS)) for _ in range(c([1, 1, 2, 3]))),
+            lambda: c(["GeoAddNX ", "GeoAddXX ", "GeoAddXX "]) + k + "".join(" " + m() + ":" + fbits(c(GEO_LONS)) + ":" + fbits(c(GEO_LATS)) for _ in range(c([1, 1, 2, 3]))),
             lambda: f"ZIncrBy {k} {m()} {self.score(True)}",
             lambda: f"ZCard {k}",
             lambda: f"ZScore {k} {m()}",
